@@ -38,9 +38,9 @@ def configs(tier):
             out.append(dict(key=f"abstract,sizes={s},{b}", sizes=list(s), dissim="abstract", backend=b,
                             cost=len(common.exact_covers(s)) * len(common.all_tuples(s))))
     for s in [(1, 1), (2, 1)]:
-        for lab in ["none", "mixed", "same"]:
+        for lab in ["none", "mixed", "same", "empty-string"]:
             out.append(dict(key=f"positional,sizes={s},labels={lab}", sizes=list(s), dissim="positional", labels=lab, backend="cbc", cost=50))
-    for lab in ["none", "mixed", "xy"]:
+    for lab in ["none", "mixed", "xy", "empty-string"]:
         out.append(dict(key=f"combined,sizes=(1, 1),labels={lab}", sizes=[1, 1], dissim="combined", labels=lab, backend="cbc", cost=60))
     # histories on one continuum object: an earlier computation, then an edit through the public API, then the alignment under test
     for s in [(2, 1), (1, 1, 1)]:
